@@ -1,3 +1,6 @@
+#[cfg(weechess_verif)]
+use weechess_simrt::{eprintln, println, randshim as rand, stdshim as std};
+
 use std::{
     io::{stdin, BufRead},
     sync::mpsc,
@@ -76,6 +79,10 @@ impl Client {
                     // TODO: Do we always want to pick a book move?
                     if let Some(moves) = book.lookup(&current_position) {
                         let moves = moves.iter().collect::<Vec<_>>();
+
+                        #[cfg(weechess_verif)]
+                        let moves = weechess_simrt::knobs::stable_order(moves, |m| m.as_raw());
+
                         let m = moves[rng.gen_range(0..moves.len())];
                         println!("info string book move: {}", m);
                         println!("bestmove {}", into_notation::<_, Lan>(m));
